@@ -188,11 +188,13 @@ type Case struct {
 
 // The first eight keep their index (committed replay files name them by index); new routes are appended.
 var actionNames = []string{"Exec again", "NewTemplate+Exec", "Clone+Exec", "Render cache off", "Render cache on (cold)", "Render cache on (warm)", "Parse cache on then Exec", "Exec on the cached template",
-	"BuffaloRenderer cache off", "BuffaloRenderer cache on", "RenderR cache off", "zero-value Template: lazy parse in Exec, then Exec again", "Parse() again then Exec", "Clone of a Clone + Exec, then Exec on the original"}
+	"BuffaloRenderer cache off", "BuffaloRenderer cache on", "RenderR cache off", "zero-value Template: lazy parse in Exec, then Exec again", "Parse() again then Exec", "Clone of a Clone + Exec, then Exec on the original",
+	"Render cache on (the text as it is)"}
 
 const (
 	aExec, aNew, aClone, aRender, aCold, aWarm, aParseExec, aCachedTwice = 0, 1, 2, 3, 4, 5, 6, 7
 	aBuffalo, aBuffaloCache, aRenderR, aLazy, aReparse, aCloneClone      = 8, 9, 10, 11, 12, 13
+	aAsIs                                                                = 14
 )
 
 var addr = regexp.MustCompile(`0x[0-9a-f]+`)
@@ -528,6 +530,9 @@ func runCase(r *vk.Run, c Case, class string) *vk.Fail {
 				}
 				return []*plush.Template{tm}
 			})
+		case aAsIs: // Render through the cache under the template's own text: whatever is cached under that text, or under a text the cache takes for it
+			plush.CacheEnabled = true
+			ress = append(ress, run(t, func(e *env) (string, error) { return plush.Render(t.Src, e.ctx()) }))
 		default: // aCloneClone
 			onParsed(func(tm *plush.Template) []*plush.Template { return []*plush.Template{tm.Clone().Clone(), tm} })
 		}
@@ -964,6 +969,221 @@ func twin(t *rapid.T, base Tmpl) Tmpl {
 	return base
 }
 
+// ---- near-duplicates: texts a cache key must keep apart ---------------------------------------------
+
+type variant struct{ kind, src string }
+
+// sitePoints lists byte offsets of a template text by the site they lie in: 0 = literal text, 1 = inside a string
+// literal of a tag, 2 = code of a tag (after a blank, before the closer). It only steers generation (where to plant a
+// difference); nothing is asserted from it.
+func sitePoints(s string) [3][]int {
+	var pts [3][]int
+	inTag, quote := false, false
+	for i := 0; i < len(s); i++ {
+		switch {
+		case !inTag:
+			if strings.HasPrefix(s[i:], "<%") {
+				inTag = true
+				i++
+				continue
+			}
+			pts[0] = append(pts[0], i)
+		case quote:
+			pts[1] = append(pts[1], i)
+			if s[i] == '\\' {
+				i++
+			} else if s[i] == '"' {
+				quote = false
+			}
+		default:
+			if strings.HasPrefix(s[i:], "%>") {
+				inTag = false
+				pts[2] = append(pts[2], i)
+				i++
+				continue
+			}
+			if s[i] == '"' {
+				quote = true
+			} else if s[i] == ' ' || s[i] == '\n' {
+				pts[2] = append(pts[2], i+1)
+			}
+		}
+	}
+	return pts
+}
+
+var siteNames = [3]string{"literal text", "string literal", "code"}
+
+// blanks a text may differ by at one point
+var pointFillers = []string{" ", "\t", "\n", "\r\n", "\r", "\n\r", "  ", " \n", "\u00a0", "\x00"}
+
+// what a text may differ by at its start or end
+var endFillers = []string{" ", "\t", "\n", "\r\n", "\r", "\x00", "\ufeff", "\u00a0", "\u200b", "\u00e9", "e\u0301", "\xff", "\ufffd", "K", "\u212a", "k"}
+
+// bump gives s with the k-th (0 = first, 1 = middle, 2 = last) letter or digit replaced by the next one (same length) or, with
+// flip, with the k-th letter in the other case; "" if there is none.
+func bump(s string, k int, flip bool) string {
+	var at []int
+	for i := 0; i < len(s); i++ {
+		c := s[i]
+		if c >= 'a' && c <= 'z' || c >= 'A' && c <= 'Z' || !flip && c >= '0' && c <= '9' {
+			at = append(at, i)
+		}
+	}
+	if len(at) == 0 {
+		return ""
+	}
+	i := at[[]int{0, len(at) / 2, len(at) - 1}[k]]
+	c := s[i]
+	switch {
+	case flip:
+		c ^= 0x20
+	case c == 'z' || c == 'Z' || c == '9':
+		c -= 'z' - 'a' // 'z'-'a' == 25; '9' becomes a control byte: take '0' instead
+		if s[i] == '9' {
+			c = '0'
+		}
+	default:
+		c++
+	}
+	return s[:i] + string(c) + s[i+1:]
+}
+
+// nearDuplicates gives the text itself and texts that differ from it as little as texts can, in the ways a cache key
+// that is not the full text (a normalised, trimmed, folded, truncated, hashed-in-part or re-encoded text) would confuse.
+func nearDuplicates(s string, pad int) []variant {
+	out := []variant{{"the text itself", s}}
+	seen := map[string]bool{s: true}
+	add := func(kind, v string) {
+		if !seen[v] {
+			seen[v] = true
+			out = append(out, variant{kind, v})
+		}
+	}
+	// line endings: all of them, one of them, mixed
+	lf := strings.ReplaceAll(strings.ReplaceAll(s, "\r\n", "\n"), "\r", "\n")
+	add("line endings: LF", lf)
+	add("line endings: CRLF", strings.ReplaceAll(lf, "\n", "\r\n"))
+	add("line endings: CR", strings.ReplaceAll(lf, "\n", "\r"))
+	add("line endings: LF CR", strings.ReplaceAll(lf, "\n", "\n\r"))
+	if i := strings.Index(lf, "\n"); i >= 0 {
+		add("line endings: first one CRLF", lf[:i]+"\r\n"+lf[i+1:])
+		add("line endings: first one CR", lf[:i]+"\r"+lf[i+1:])
+		j := strings.LastIndex(lf, "\n")
+		add("line endings: last one CRLF", lf[:j]+"\r\n"+lf[j+1:])
+		parts := strings.Split(lf, "\n")
+		mixed := parts[0]
+		for k, p := range parts[1:] {
+			mixed += []string{"\r\n", "\n", "\r"}[k%3] + p
+		}
+		add("line endings: mixed", mixed)
+		add("line endings: a blank before each", strings.ReplaceAll(lf, "\n", " \n"))
+		add("line endings: doubled", strings.ReplaceAll(lf, "\n", "\n\n"))
+	}
+	// start and end
+	for _, e := range endFillers {
+		add(fmt.Sprintf("%q appended", e), s+e)
+		add(fmt.Sprintf("%q prepended", e), e+s)
+	}
+	add("trimmed", strings.TrimSpace(s))
+	add("trimmed right", strings.TrimRight(s, " \t\r\n"))
+	add("blanks collapsed", strings.Join(strings.Fields(s), " "))
+	add("doubled", s+s)
+	// tabs and spaces
+	add("spaces -> tabs", strings.ReplaceAll(s, " ", "\t"))
+	add("tabs -> spaces", strings.ReplaceAll(s, "\t", "    "))
+	add("double spaces -> one", strings.ReplaceAll(s, "  ", " "))
+	add("spaces -> no-break spaces", strings.ReplaceAll(s, " ", "\u00a0"))
+	// case and look-alikes
+	add("upper case", strings.ToUpper(s))
+	add("lower case", strings.ToLower(s))
+	for k, where := range []string{"first", "middle", "last"} {
+		add(where+" letter's case flipped", bump(s, k, true))
+		add(where+" letter or digit replaced by the next (same length)", bump(s, k, false))
+	}
+	for _, p := range [][2]string{{"a", "\u0430"}, {"o", "\u03bf"}, {"e", "\u0435"}, {"\u00e9", "e\u0301"}, {"&", "&amp;"}, {"<", "&lt;"}, {"\"", "&#34;"}, {"'", "\""}} {
+		add(fmt.Sprintf("first %q -> %q", p[0], p[1]), strings.Replace(s, p[0], p[1], 1))
+	}
+	// a difference planted at the first and the last point of each site
+	pts := sitePoints(s)
+	for site, ps := range pts {
+		if len(ps) == 0 {
+			continue
+		}
+		for _, at := range []int{ps[0], ps[len(ps)-1]} {
+			for _, f := range pointFillers {
+				add(fmt.Sprintf("%q inserted in %s", f, siteNames[site]), s[:at]+f+s[at:])
+			}
+		}
+	}
+	// equal up to a long common prefix / suffix / both
+	if pad > 0 {
+		p := strings.Repeat("0123456789abcde\n", pad/16)
+		for k, where := range []string{"start", "middle", "end"} {
+			if b := bump(s, k, false); b != "" {
+				add("long common prefix, the text", p+s)
+				add("long common prefix, one byte at the "+where+" differs", p+b)
+				add("long common suffix, the text", s+p)
+				add("long common suffix, one byte at the "+where+" differs", b+p)
+				add("long common prefix and suffix, the text", p+s+p)
+				add("long common prefix and suffix, one byte at the "+where+" differs", p+b+p)
+			}
+		}
+	}
+	delete(seen, "") // bump's "none"
+	return out
+}
+
+// a variant that might newly name the one Go map of the data with several entries could show the licensed variation
+func mayShowMapOrder(base, v string) bool {
+	return strings.Contains(v, "m3") && !strings.Contains(base, "m3")
+}
+
+// dupSites: "¤" is the slot that the members of a family fill differently, "§" a number new for every family (the
+// cache is global: a text rendered earlier in the process must not hide a confusion).
+var dupSites = []Tmpl{
+	{Src: "fam§ line one¤line two <%= i1 %>"},
+	{Src: "¤<p>fam§\n<%= i1 %></p>"},
+	{Src: "<p>fam§<%= i1 %></p>¤"},
+	{Src: "fam§<%= i1 %>¤<%= i2 %>"},
+	{Src: `fam§<%= "a¤b" %>|`},
+	{Src: `fam§<% let s = "x¤y" %><%= s + "¤" %>|<%= len(s) %>|<%= s == "x y" %>`},
+	{Src: `fam§<%= {"k¤": 1}["k "] %>|<%= {"k¤": 1}["k¤"] %>`},
+	{Src: `fam§<%= partial("px", {x: "[¤]"}) %>`, Partials: richPartials},
+	{Src: "fam§<%= i1 +¤i2 %>"},
+	{Src: "fam§<%=¤i1 %>|<%= i2¤%>"},
+	{Src: "fam§<%= if (t) {¤%>yes<% }¤else { %>no<% } %>"},
+	{Src: "fam§<%= for (x) in [1, 2] { %>¤<%= x %><% } %>"},
+	{Src: "fam§<% let f = fn(a) {¤return a + 1¤} %><%= f(1) %>"},
+	{Src: "fam§<%= blk() { %>a¤b<% } %>|<%= contentOf(\"d\") { %>d¤e<% } %>"},
+	{Src: "fam§<%# note¤here %>after"},
+	{Src: "fam§<%= s¤3 %>|<%= s3¤ %>"},
+}
+
+var slotFillers = []string{"\n", "\r\n", "\r", "\n\r", "\r\r\n", "\n\n", "\r\n\r\n", " \n", "\n ", " \r\n", "\t\n", " ", "  ", "\t", "    ", " \t", "", "\x00", "\ufeff", "\u00a0", "\u200b", "\u2028", "\u0085", "\v", "\f",
+	"\u00e9", "e\u0301", "\u00c9", "E\u0301", "K", "\u212a", "k", "fi", "\ufb01", "\u00df", "ss", "SS", "\xff", "\ufffd", "\xc3", "A", "a", "\u0430", "&", "&amp;", "&#38;", "<", "&lt;", `\n`, `\r\n`, "0", "1", "\uff10", "%", "%%"}
+
+// dupActions: every text first through a fresh parse with the cache off (its own reference), then the texts in
+// turn (A, B, C, ..., A, B, C, ...) through every route that looks the text up in the cache, backwards, and cache-off again.
+func dupActions(n int) [][2]int {
+	var acts [][2]int
+	for i := 0; i < n; i++ {
+		acts = append(acts, [2]int{i, aNew})
+	}
+	for _, route := range []int{aAsIs, aParseExec, aBuffaloCache, aCachedTwice} {
+		for i := 0; i < n; i++ {
+			acts = append(acts, [2]int{i, route})
+		}
+	}
+	for i := n - 1; i >= 0; i-- {
+		acts = append(acts, [2]int{i, aAsIs})
+	}
+	for i := 0; i < n; i++ {
+		acts = append(acts, [2]int{i, aRender})
+	}
+	return acts
+}
+
 // ---- names that must not travel from one template to another ----------------------------------------
 
 // "§" stands for a number that is new for every history: a name that leaked earlier in the process must not hide a leak
@@ -1006,7 +1226,7 @@ func numbered(t Tmpl, n int64) Tmpl {
 	return out
 }
 
-const rule = "templates: (1) random programs over all constructs (shared generator; some with planted faults so that errors must be deterministic too) spliced with hash literals of 3-5 entries whose values call a recording helper and with duplicate keys; (2) SHAPES written as text over richer data (maps, structs with a nested pointer, a method with per-instance state, a recording method, a value-receiver method, typed slices, a time, an iterator, a helper that counts per context): hash literals of 0..12 entries over a 6-key pool (identifier and string keys, duplicate keys, values that record / count / are literals only / nest) used in place, through let, in a loop body and a function body entered several times, as data of a partial and of contentOf, nested in arrays and hashes, encoded whole, and assigned to after they were made; array literals of 0..6 elements likewise; 1-7 pieces out of 77 (among them a struct value whose Go type alternates, from execution to execution and within one render, between two types that print alike and hold the same fields in another order; among them helpers that fill defaults into the options map they are given - omitted, empty, with an entry -; sometimes followed by one of 42 pieces that fail: unknown names, missing members, bad indexes and arguments whose printed form holds maps and pointers, failing and panicking helpers) over the rich data (member paths, methods, built-in helpers, iterators, names read before they are made inside a loop body / function body / helper block / partial / stored block that is entered twice, for over a Go map only where the order cannot show: no entry, one entry, a body blind to the entry); (3) any of these with one tag the parser rejects planted in front of one of its tags (18 rejected tags); (4) TWINS: a template of the history again with a minimal difference (white space before/after, one digit, one letter's case, two bytes swapped, last byte dropped, first byte doubled); plus (E) each of the 77 + 42 pieces on its own, the 277 templates harvested from the repository's tests, 9 hash-literal snippets, 21 boundary templates (empty, a lone tag opener or closer, escaped opener, 400 tags, 100 kB of text, 40 nested ifs, a 200-entry hash and array literal) and a partial that includes itself (overlapping executions of one cached template object). Histories: 1-3 templates x up to 14 interleaved actions from 14 routes {Exec again on the parsed template, NewTemplate+Exec, Clone+Exec, Render with the cache off, Render with the cache on and cold (text made unique by a leading comment tag), Render cache-on warm, Parse through the cache then Exec, Exec twice on the cached object, BuffaloRenderer cache off / on, RenderR, a zero-value Template{Input} that parses in its first Exec + second Exec + Clone, Parse() again then Exec, Clone of a Clone then the original}; a template the parser rejects goes through the same routes (Exec / Clone on the Template returned next to the error; the text of the error value held from the first parse is read again at every step); context data rebuilt fresh-but-equal for every execution. (E) every template x all 14 actions x 2 rounds; (E) long runs: one route repeated 40 times (Exec, Clone, warm cache, cached object) for the snippets, every 8th harvested template and fixed templates with white-space-only text between tags; (E) error storms: 14 templates that fail or forgive a failure (partial feeder / render / parse error inside a partial and its layout, a forgiven unknown function, a helper that fails or panics, a failure in a helper block, in a loop, a missing block, a parse error, a failure 12 calls deep in a recursion) executed 1100 times in a row on three routes between executions of a healthy template (nested partials, recursion, helper block, nested arrays, default block) that then goes through all routes; (E) hostile neighbours: 16 templates the parser refuses in an unusual state (code nested 10050 levels deep in each of 9 nesting constructs - the parser's nesting limit -, input that ends inside a string / comment / tag / block / function literal, 200 syntax errors in a row) parsed through every route (quick: 5) between executions of 4 healthy templates, which then go through all 14 routes and are parsed cold again; (E) name leaks: [user, definer, user, definer, user] for 10 templates that only USE a name (let variable, function, contentFor block, partial, loop variable, names made inside a partial; or that make it for themselves) x definers of these names (also as a member name after an index or a call) x every route for the definer (quick: 5 routes) x every route for the user, the names numbered afresh for every history; (R) random histories over (1), and over (1)-(4) mixed. Oracle: every (output, error text with addresses normalised, recorded helper invocation order) equals the first result for that template; the deep structural hash of the parsed program (all fields incl. token lines, pointer topology, H1 accessor) and the Input are identical after every Exec, also for the cached object around a warm render. Excluded by construction: for over Go maps / multi-entry hash literals where the order can show (the licensed variation); printing pointers (addresses are not data). Non-trivial = histories of >= 3 actions; distinct by (templates, actions)."
+const rule = "templates: (1) random programs over all constructs (shared generator; some with planted faults so that errors must be deterministic too) spliced with hash literals of 3-5 entries whose values call a recording helper and with duplicate keys; (2) SHAPES written as text over richer data (maps, structs with a nested pointer, a method with per-instance state, a recording method, a value-receiver method, typed slices, a time, an iterator, a helper that counts per context): hash literals of 0..12 entries over a 6-key pool (identifier and string keys, duplicate keys, values that record / count / are literals only / nest) used in place, through let, in a loop body and a function body entered several times, as data of a partial and of contentOf, nested in arrays and hashes, encoded whole, and assigned to after they were made; array literals of 0..6 elements likewise; 1-7 pieces out of 77 (among them a struct value whose Go type alternates, from execution to execution and within one render, between two types that print alike and hold the same fields in another order; among them helpers that fill defaults into the options map they are given - omitted, empty, with an entry -; sometimes followed by one of 42 pieces that fail: unknown names, missing members, bad indexes and arguments whose printed form holds maps and pointers, failing and panicking helpers) over the rich data (member paths, methods, built-in helpers, iterators, names read before they are made inside a loop body / function body / helper block / partial / stored block that is entered twice, for over a Go map only where the order cannot show: no entry, one entry, a body blind to the entry); (3) any of these with one tag the parser rejects planted in front of one of its tags (18 rejected tags); (4) TWINS: a template of the history again with a minimal difference (white space before/after, one digit, one letter's case, two bytes swapped, last byte dropped, first byte doubled); plus (E) each of the 77 + 42 pieces on its own, the 277 templates harvested from the repository's tests, 9 hash-literal snippets, 21 boundary templates (empty, a lone tag opener or closer, escaped opener, 400 tags, 100 kB of text, 40 nested ifs, a 200-entry hash and array literal) and a partial that includes itself (overlapping executions of one cached template object). Histories: 1-3 templates x up to 14 interleaved actions from 15 routes {Exec again on the parsed template, NewTemplate+Exec, Clone+Exec, Render with the cache off, Render with the cache on and cold (text made unique by a leading comment tag), Render cache-on warm, Parse through the cache then Exec, Exec twice on the cached object, BuffaloRenderer cache off / on, RenderR, a zero-value Template{Input} that parses in its first Exec + second Exec + Clone, Parse() again then Exec, Clone of a Clone then the original, Render with the cache on under the text as it is}; a template the parser rejects goes through the same routes (Exec / Clone on the Template returned next to the error; the text of the error value held from the first parse is read again at every step); context data rebuilt fresh-but-equal for every execution. (E) every template x all 15 actions x 2 rounds; (E) long runs: one route repeated 40 times (Exec, Clone, warm cache, cached object) for the snippets, every 8th harvested template and fixed templates with white-space-only text between tags; (E) error storms: 14 templates that fail or forgive a failure (partial feeder / render / parse error inside a partial and its layout, a forgiven unknown function, a helper that fails or panics, a failure in a helper block, in a loop, a missing block, a parse error, a failure 12 calls deep in a recursion) executed 1100 times in a row on three routes between executions of a healthy template (nested partials, recursion, helper block, nested arrays, default block) that then goes through all routes; (E) hostile neighbours: 16 templates the parser refuses in an unusual state (code nested 10050 levels deep in each of 9 nesting constructs - the parser's nesting limit -, input that ends inside a string / comment / tag / block / function literal, 200 syntax errors in a row) parsed through every route (quick: 5) between executions of 4 healthy templates, which then go through all 15 routes and are parsed cold again; (E) name leaks: [user, definer, user, definer, user] for 10 templates that only USE a name (let variable, function, contentFor block, partial, loop variable, names made inside a partial; or that make it for themselves) x definers of these names (also as a member name after an index or a call) x every route for the definer (quick: 5 routes) x every route for the user, the names numbered afresh for every history; (E)+(R) NEAR-DUPLICATES (added later): families of DIFFERENT texts that a cache key other than the full text (normalised, trimmed, case-folded, re-encoded, truncated, hashed in part) would take for one: 16 sites with a slot (literal text at the start / inside / at the end / between tags, a string literal printed / bound and compared / as hash key / passed to a partial, code between operands / at a tag's edges / around block braces / in a function body, block bodies, a comment, inside a name) x 55 fillers of the slot (LF, CRLF, CR, LF CR, doubled and blank-padded line breaks, space / two / four spaces / tab, nothing, NUL, BOM, no-break / zero-width space, U+2028, NEL, VT, FF, composed vs decomposed accents, Kelvin sign vs K vs k, ligature vs letters, sharp s vs ss vs SS, an ill-formed byte vs U+FFFD, Latin vs Cyrillic a, & vs its entities, an escape sequence vs the character, ASCII vs full-width digit) as one family of 55 texts, forwards and backwards, each family numbered afresh; every pool template (hash snippets, harvested templates, pieces over the rich data, the sites; quick: every 8th) with all its near-duplicates (91 texts on average, up to ~150) as one family: line endings converted all / the first / the last / mixed, 16 things appended and prepended, trimmed, blanks collapsed, tabs <-> spaces, upper / lower case and one letter's case at the start / middle / end, one letter or digit replaced by the next at the start / middle / end (same length), look-alike letters, entities, 10 blanks inserted at the first and the last point of each site (literal text, string literal, code), and the text and its one-byte variants behind a 4-16 kB common prefix, before a common suffix, between both; (R) a generated / harvested / site template with 1-5 of its near-duplicates (those, plus fillers inserted or put in place of a blank at random points of a random site). History of a family: every text first through a fresh parse with the cache off (its own reference), then the texts in turn (A, B, C, ..., A, B, C, ...) through each route that looks the text up in the cache (Render as is, Parse+Exec, BuffaloRenderer, cached object twice), then backwards, then cache off again ((R): 2-5 random actions per text over these routes and Exec / Render / re-Parse); each text must give what its own first execution gave - no expectation about what a variant means is used, a variant the parser rejects must be rejected the same way every time. Not asserted: a variant that newly names the one multi-entry Go map of the data (counted as excluded). (R) random histories over (1), and over (1)-(4) mixed. Oracle: every (output, error text with addresses normalised, recorded helper invocation order) equals the first result for that template; the deep structural hash of the parsed program (all fields incl. token lines, pointer topology, H1 accessor) and the Input are identical after every Exec, also for the cached object around a warm render. Excluded by construction: for over Go maps / multi-entry hash literals where the order can show (the licensed variation); printing pointers (addresses are not data). Non-trivial = histories of >= 3 actions; distinct by (templates, actions)."
 
 func setup(t *testing.T) *vk.Run {
 	r := vk.Start(t, "C13", rule,
@@ -1080,7 +1300,7 @@ func TestProp(t *testing.T) {
 		r.Check(runCase(r, Case{Templates: []Tmpl{rec, {Src: self + `<% let n = 1 %>`, Partials: map[string]string{"self": self}}}, Actions: append(append([][2]int{}, all...), [2]int{1, 4}, [2]int{1, 5}, [2]int{0, 5}, [2]int{1, 6})}, "recursive-partial"))
 		n++
 	}
-	r.Subspace("harvested templates, hash snippets, boundary templates, the 71 + 42 pieces over the rich data and a self-including partial x all 14 actions x 2 rounds", n, true)
+	r.Subspace("harvested templates, hash snippets, boundary templates, the 71 + 42 pieces over the rich data and a self-including partial x all 15 actions x 2 rounds", n, true)
 
 	// E: long runs of one route: state that builds up per template object or per cache entry (a use counter, say)
 	// shows only after many executions
@@ -1189,6 +1409,131 @@ func TestProp(t *testing.T) {
 		}
 	}
 	r.Subspace("name leaks: users x definers x route of the definer x route of the user, history [user, definer, user, definer, user]", n, true)
+
+	// E: near-duplicates. A cache must keep apart what differs, however little: families of texts that differ only in
+	// their line endings, blanks, case, look-alike or ill-formed characters, a NUL or a BOM, or in one byte behind / before a
+	// long common part - in literal text, in a string literal, in code - go through the cache in turn; each must
+	// give what its own fresh parse gave.
+	n = 0
+	var fam int64
+	for _, site := range dupSites {
+		for _, backwards := range []bool{false, true} {
+			fam++
+			if !r.Mine(fam) {
+				continue
+			}
+			var c Case
+			for _, f := range slotFillers {
+				tm := numbered(site, fam)
+				tm.Src = strings.ReplaceAll(tm.Src, "¤", f)
+				if backwards {
+					c.Templates = append([]Tmpl{tm}, c.Templates...)
+				} else {
+					c.Templates = append(c.Templates, tm)
+				}
+			}
+			c.Actions = dupActions(len(c.Templates))
+			r.Check(runCase(r, c, "near-duplicates"))
+			n++
+		}
+	}
+	r.Subspace(fmt.Sprintf("near-duplicates: %d sites (literal text at the start / inside / at the end / between tags, string literals printed / bound / as hash key / passed to a partial, code between operands / at the tag's edges / around block braces / in a function body, block bodies, a comment, inside a name) x %d fillers of the slot as one family, forwards and backwards, x [fresh parse each; each cache route in turn; backwards; cache off]", len(dupSites), len(slotFillers)), n, true)
+
+	var pool []Tmpl
+	for _, s := range append(append([]string{}, hashSnippets...), corpus.Templates()...) {
+		pool = append(pool, Tmpl{Src: s})
+	}
+	for _, pc := range append(append([]string{}, richPieces...), failingPieces...) {
+		pool = append(pool, Tmpl{Src: pc, Data: "rich", Partials: richPartials})
+	}
+	for _, site := range dupSites {
+		tm := numbered(site, 0)
+		tm.Src = strings.ReplaceAll(tm.Src, "¤", "\n")
+		pool = append(pool, tm)
+	}
+	n = 0
+	stride := r.Pick(8, 1)
+	for i, base := range pool {
+		if (i+int(r.Seed))%stride != 0 || !r.Mine(int64(i)) {
+			continue
+		}
+		c := Case{}
+		for _, v := range nearDuplicates(base.Src, r.Pick(4096, 16384)) {
+			if mayShowMapOrder(base.Src, v.src) {
+				r.Exclude("near-duplicate that might name the multi-entry Go map (licensed variation)")
+				continue
+			}
+			tm := base
+			tm.Src = v.src
+			c.Templates = append(c.Templates, tm)
+			r.Class("near-duplicate: " + v.kind)
+		}
+		c.Actions = dupActions(len(c.Templates))
+		r.Check(runCase(r, c, "near-duplicates"))
+		n++
+	}
+	r.Subspace("near-duplicates of pool templates (hash snippets, harvested templates, pieces over the rich data, the sites; quick: every 8th): each with all its near-duplicates (line endings all / one / mixed, 16 things appended and prepended, trimmed, blanks collapsed, tabs <-> spaces, case, one byte replaced at the start / middle / end, look-alikes, entities, 10 blanks inserted at the first and last point of each site, a long common prefix / suffix / both) as one family", n, true)
+
+	r.Rapid("near-duplicates", r.Pick(400, 3000), func(t *rapid.T) *vk.Fail {
+		var base Tmpl
+		switch rapid.IntRange(0, 6).Draw(t, "base") {
+		case 0:
+			base = genTmpl(t)
+		case 1:
+			base = hashShape(t)
+		case 2, 3:
+			base = richShape(t)
+		case 4:
+			base = arrayShape(t)
+		case 5:
+			base = Tmpl{Src: rapid.SampledFrom(corpus.Templates()).Draw(t, "harvested")}
+		default:
+			base = numbered(rapid.SampledFrom(dupSites).Draw(t, "site"), atomic.AddInt64(&uniq, 1))
+			base.Src = strings.ReplaceAll(base.Src, "¤", rapid.SampledFrom(slotFillers).Draw(t, "filler"))
+		}
+		base.Prog = nil
+		vs := nearDuplicates(base.Src, 0)
+		// differences at random points: a filler inserted, a blank or a line break replaced
+		pts := sitePoints(base.Src)
+		for k := rapid.IntRange(0, 6).Draw(t, "points"); k > 0; k-- {
+			site := rapid.IntRange(0, 2).Draw(t, "site")
+			if len(pts[site]) == 0 {
+				continue
+			}
+			at := rapid.SampledFrom(pts[site]).Draw(t, "at")
+			f := rapid.SampledFrom(slotFillers).Draw(t, "what")
+			s := base.Src
+			if at < len(s) && (s[at] == ' ' || s[at] == '\n') && rapid.Bool().Draw(t, "replace") {
+				vs = append(vs, variant{fmt.Sprintf("%q in place of a blank in %s", f, siteNames[site]), s[:at] + f + s[at+1:]})
+			} else {
+				vs = append(vs, variant{fmt.Sprintf("%q inserted in %s", f, siteNames[site]), s[:at] + f + s[at:]})
+			}
+		}
+		c := Case{Templates: []Tmpl{base}}
+		for k := rapid.IntRange(1, 5).Draw(t, "twins"); k > 0; k-- {
+			v := vs[rapid.IntRange(0, len(vs)-1).Draw(t, "variant")]
+			if mayShowMapOrder(base.Src, v.src) {
+				r.Exclude("near-duplicate that might name the multi-entry Go map (licensed variation)")
+				continue
+			}
+			tm := base
+			tm.Src = v.src
+			if rapid.IntRange(0, 3).Draw(t, "front") == 0 {
+				c.Templates = append([]Tmpl{tm}, c.Templates...)
+			} else {
+				c.Templates = append(c.Templates, tm)
+			}
+		}
+		nt := len(c.Templates)
+		for i := 0; i < nt; i++ {
+			c.Actions = append(c.Actions, [2]int{i, aNew})
+		}
+		routes := []int{aAsIs, aAsIs, aParseExec, aBuffaloCache, aCachedTwice, aWarm, aExec, aRender, aReparse}
+		for k := rapid.IntRange(2*nt, 5*nt).Draw(t, "nactions"); k > 0; k-- {
+			c.Actions = append(c.Actions, [2]int{rapid.IntRange(0, nt-1).Draw(t, "tmpl"), rapid.SampledFrom(routes).Draw(t, "route")})
+		}
+		return runCase(r, c, "near-duplicates (R)")
+	})
 
 	histories := func(gen func(t *rapid.T, prev []Tmpl) Tmpl, class string) func(t *rapid.T) *vk.Fail {
 		return func(t *rapid.T) *vk.Fail {
